@@ -33,6 +33,8 @@ struct StreamInfo {
 	closed_by_server: bool,
 	consumer: Ended,
 	unsub_wires: usize,
+	/// unsubscribed by the drop of a STALE handle of an earlier subscription with the same id (known finding)
+	killed_by_stale_drop: bool,
 	/// the gate was shut at some point while this stream was live (the send task may have been blocked)
 	gate_was_shut: bool,
 	/// the consumer ended the stream (drop / unsubscribe) while the send task was free
@@ -324,9 +326,36 @@ fn run_one(out: &mut Out, lines: &[String], fam: &mut BTreeMap<u64, Vec<(usize, 
 					}
 				}
 			}
+			// a handle whose stream ended earlier on (its unsubscribe request went out, or the server closed it) is
+			// dropped now: nothing may be sent for it any more
+			let stale_drop: Option<(usize, String)> = if w[1] == "drop" {
+				let op: usize = w[2].parse().unwrap_or(0);
+				orc.streams.get(&op).and_then(|s| match &s.sid {
+					Some(sid) if s.consumer == Ended::No && (s.unsub_wires >= 1 || s.closed_by_server) => Some((op, sid.clone())),
+					_ => None,
+				})
+			} else {
+				None
+			};
 			// what the client wrote as a consequence comes after what it received
 			for wt in &obs.wires {
 				orc.wire(wt);
+			}
+			if let Some((op, sid)) = &stale_drop {
+				let names_sid = obs.wires.iter().any(|wt| {
+					serde_json::from_str::<Value>(wt).ok().map(|v| v.get("method").and_then(|m| m.as_str()) == Some("unsub") && v.get("params").and_then(|p| p.get(0)).map(|x| x.to_string()).as_deref() == Some(sid.as_str())).unwrap_or(false)
+				});
+				let victim = orc.streams.iter().find(|(j, s)| **j != *op && s.sid.as_deref() == Some(sid.as_str()) && s.consumer == Ended::No && !s.closed_by_server).map(|(j, _)| *j);
+				if let (true, Some(j)) = (names_sid, victim) {
+					if let Some(v) = orc.streams.get_mut(&j) {
+						v.killed_by_stale_drop = true;
+					}
+					if verdict.is_ok() {
+						verdict = Err(format!(
+							"KF stale-handle-drop-unsubscribes-newer-subscription stream {op} had ended (its unsubscribe was sent / the server closed it); dropping its handle sent an unsubscribe request for id {sid}, which now belongs to the live stream {j}"
+						));
+					}
+				}
 			}
 			if w[1] == "deliver" {
 				for (op, comp) in &obs.comps {
@@ -433,7 +462,9 @@ fn run_one(out: &mut Out, lines: &[String], fam: &mut BTreeMap<u64, Vec<(usize, 
 								out.count(if *lagged { "next.end.lagged" } else { "next.end.closed" });
 								s.saw_end = true;
 								// the stream ends only on close notification or lag (connection end is excluded: not dead here)
-								if !s.closed_by_server && !s.lag_seen {
+								if !s.closed_by_server && !s.lag_seen && s.killed_by_stale_drop {
+									verdict = Err(format!("KF stale-handle-drop-unsubscribes-newer-subscription stream {op} ended although the server did not close it and it never lagged: it was unsubscribed by the drop of a stale handle of an earlier subscription with the same id"));
+								} else if !s.closed_by_server && !s.lag_seen {
 									verdict = Err(format!("stream {op} ended although the server did not close it and it never lagged"));
 								} else if *lagged != s.lag_seen {
 									verdict = Err(format!("stream {op}: close_reason lagged={lagged} but buffer-full was {}", s.lag_seen));
@@ -535,6 +566,7 @@ fn new_stream(sid: Option<String>, method: Option<String>, gate_shut: bool) -> S
 		closed_by_server: false,
 		consumer: Ended::No,
 		unsub_wires: 0,
+		killed_by_stale_drop: false,
 		gate_was_shut: gate_shut,
 		ended_with_gate_open: false,
 		notified_after_end: false,
